@@ -53,11 +53,11 @@ def bounded_sets(tier, seed):
 def plan(tier):
     pl = Plan()
     pl.level = "other"
-    pl.units = [U("Q.quote.plain", "contracts.factorygen", "h_quote", ("plain",)),
-                U("Q.quote.special", "contracts.factorygen", "h_quote", ("special",)),
-                U("H.require", "contracts.factorygen", "h_require_bookkeeping", ())]
+    pl.units = [U("Q.quote.plain", "contracts.factorygen", "h_quote", ("plain",), native_ok=True, sample_models=True),
+                U("Q.quote.special", "contracts.factorygen", "h_quote", ("special",), native_ok=True, sample_models=True),
+                U("H.require", "contracts.factorygen", "h_require_bookkeeping", (), native_ok=True, sample_models=True)]
     for n in (0, 1, 2):
-        pl.units.append(U("T.rendering.n%d" % n, "contracts.factorygen", "h_set_rendering", (n, False)))
+        pl.units.append(U("T.rendering.n%d" % n, "contracts.factorygen", "h_set_rendering", (n, False), native_ok=True, sample_models=True))
     pl.static = [static_requires]
     pl.bounded = [bounded_sets]
     pl.functions = [("sievelib.factory", "FiltersSet.__quote_if_necessary"), ("sievelib.factory", "FiltersSet.require"),
